@@ -448,12 +448,18 @@ macro_rules! impl_unit {
             }
         }
 
-        impl<U, V> ResponseData for $unit<U, V> where U: Units<V> + ?Sized, V: Num + Conversion<V> + ResponseData {
+        impl<U, V> ResponseData for $unit<U, V>
+        where
+            U: Units<V> + ?Sized,
+            V: Num + Conversion<V> + ResponseData,
+            $base: $conversion,
+        {
             fn format_response_data(
                 &self,
                 formatter: &mut dyn Formatter,
             ) -> core::result::Result<(), Error> {
-                self.value.format_response_data(formatter)
+                // Written in the unit a number without suffix is read in
+                self.get::<$base>().format_response_data(formatter)
             }
         }
 
